@@ -34,6 +34,7 @@ func main() {
 			j.Threads = true
 			j.TimersNeverFire = true
 			fmt.Sscanf(os.Getenv("SYMGO_PREEMPT"), "%d", &j.Preempt)
+			j.CanonicalBlock = os.Getenv("SYMGO_CANON") != ""
 		}
 		if gc := os.Getenv("SYMGO_GOINLINECALLS"); gc != "" {
 			j.GoInlineCalls = strings.Split(gc, ",")
